@@ -161,7 +161,7 @@ def run(R):
               'interleaved with edits of its owner through the public API (labels(s) add/discard, replace_labelling_function with set/frozenset/list/shared '
               'containers, add_edge, a new state with its edges and labels) - with a pool of formula OBJECTS reused across the calls (now and then also '
               'passed to CTLS/CTL.modelcheck); every answer must equal the proved model on the presentation read back at the time of the call, formula '
-              'objects must keep their trees, K must be left alone, returned sets are cleared / polluted by the caller after being recorded')
+              'objects must keep their trees, K must be left alone, returned sets are cleared / polluted by the caller after being recorded STACKED NEGATIONS: random formulas with 2-4 negations stacked on random subformulas (under quantifiers, between temporal operators, over derived operators and constants), object and text channel. JOINED ATOM NAMES: atom names of which one is the concatenation / blank- or comma-join / repetition / case variant of others ({p, q} and {pq} are different label sets), most structures with a state of each kind')
     known_finding_probe(R)
     run_print_stream(R, 'C02', 'LTL', 800 if R.thorough else 100)
     cs = cases(R)
@@ -172,11 +172,16 @@ def run(R):
     # or/and nodes with 3-5 (or 1) operands, each a distinct temporal formula: an operand in position >= 3 must count
     wide = wide_cases(R.rng, 2500 if R.thorough else 250, 'LTL')
     run_mc(R, 'LTL', wide, label='_wide_connectives')
+    # negations stacked (not not phi, not not not phi) at random positions of random path formulas
+    neg = stacked_negation_cases(R.rng, 2500 if R.thorough else 250, 'LTL')
+    run_mc(R, 'LTL', neg, label='_stacked_negations')
+    # atom names of which one is the concatenation / join of others: {p, q} and {pq} are different label sets
+    run_mc(R, 'LTL', joined_name_cases(R.rng, 3000 if R.thorough else 300, 'LTL'), label='_joined_atom_names')
     rng = R.rng
     # the same cases under other presentations of the structure (states that are not 0..n-1, label containers that are not sets)
     run_mc(R, 'LTL', rng.sample(cs, 8000 if R.thorough else 800) + dense[::6] + wide[::5], label='_renamed_states', alias_every=0, varied=True)
     # the text channel: multi-character atom names, every operator (binary temporal operators and --> over-weighted)
-    tx = rng.sample(cs, 3000 if R.thorough else 350) + dense[::10]
+    tx = rng.sample(cs, 3000 if R.thorough else 350) + dense[::10] + neg[::3]
     lit = lambda: rng.choice([('ap', 'p'), ('ap', 'q'), ('ap', 'r'), ('not', ('ap', 'p')), ('X', ('ap', 'q')), ('F', ('ap', 'r')), ('G', ('ap', 'p')), ('true',)])
     for _ in range(1500 if R.thorough else 150):
         a, b, c = lit(), lit(), lit()
